@@ -666,11 +666,14 @@ hwloc_backend_synthetic_init(struct hwloc_synthetic_backend_data_s *data,
     count++;
   }
 
+  /* terminate the list of levels in case we have to free them on error below */
+  data->level[count-1].arity = 0;
+
   if (data->level[count-1].attr.type != HWLOC_OBJ_TYPE_NONE && data->level[count-1].attr.type != HWLOC_OBJ_PU) {
     if (verbose)
       fprintf(stderr, "Synthetic string cannot use non-PU type for last level\n");
     errno = EINVAL;
-    return -1;
+    goto error;
   }
   data->level[count-1].attr.type = HWLOC_OBJ_PU;
 
@@ -689,42 +692,42 @@ hwloc_backend_synthetic_init(struct hwloc_synthetic_backend_data_s *data,
     if (verbose)
       fprintf(stderr, "Synthetic string missing ending number of PUs\n");
     errno = EINVAL;
-    return -1;
+    goto error;
   } else if (type_count[HWLOC_OBJ_PU] > 1) {
     if (verbose)
       fprintf(stderr, "Synthetic string cannot have several PU levels\n");
     errno = EINVAL;
-    return -1;
+    goto error;
   }
   if (type_count[HWLOC_OBJ_PACKAGE] > 1) {
     if (verbose)
       fprintf(stderr, "Synthetic string cannot have several package levels\n");
     errno = EINVAL;
-    return -1;
+    goto error;
   }
   if (type_count[HWLOC_OBJ_DIE] > 1) {
     if (verbose)
       fprintf(stderr, "Synthetic string cannot have several die levels\n");
     errno = EINVAL;
-    return -1;
+    goto error;
   }
   if (type_count[HWLOC_OBJ_NUMANODE] > 1) {
     if (verbose)
       fprintf(stderr, "Synthetic string cannot have several NUMA node levels\n");
     errno = EINVAL;
-    return -1;
+    goto error;
   }
   if (type_count[HWLOC_OBJ_NUMANODE] && data->numa_attached_nr) {
     if (verbose)
       fprintf(stderr,"Synthetic string cannot have NUMA nodes both as a level and attached\n");
     errno = EINVAL;
-    return -1;
+    goto error;
   }
   if (type_count[HWLOC_OBJ_CORE] > 1) {
     if (verbose)
       fprintf(stderr, "Synthetic string cannot have several core levels\n");
     errno = EINVAL;
-    return -1;
+    goto error;
   }
 
   /* deal with missing intermediate levels */
@@ -737,7 +740,7 @@ hwloc_backend_synthetic_init(struct hwloc_synthetic_backend_data_s *data,
     if (verbose)
       fprintf(stderr, "Synthetic string cannot mix unspecified and specified types for levels\n");
     errno = EINVAL;
-    return -1;
+    goto error;
   }
   if (unset) {
     /* we want in priority: numa, package, core, up to 3 caches, groups */
